@@ -205,7 +205,21 @@ func runC11(c *Ctx) {
 	}
 
 	// duplicate detection on arrival is order independent: hasReport scans the whole list
-	if hr := c.MustFunc("C11-R2", "internal/reporter.Summary.hasReport"); hr != nil {
+	if hr := c.P.Func("internal/reporter.Summary.hasReport"); hr == nil {
+		// no helper: Summary.Report asks slices.ContainsFunc(s.reports, …), which looks at every stored report
+		ok := false
+		if rp := c.MustFunc("C11-R2", "internal/reporter.Summary.Report"); rp != nil {
+			ast.Inspect(rp.Decl.Body, func(n ast.Node) bool {
+				if call, isCall := n.(*ast.CallExpr); isCall && len(call.Args) == 2 {
+					if fn := Callee(rp.Pkg.TypesInfo, call); fn != nil && fn.Pkg() != nil && fn.Pkg().Path() == "slices" && fn.Name() == "ContainsFunc" && fieldSel(rp.Pkg.TypesInfo, call.Args[0], "internal/reporter.Summary", "reports") {
+						ok = true
+					}
+				}
+				return true
+			})
+			c.Check(ok, "C11-R2", "hasReport:scans every stored report", rp.Decl.Pos(), "slices.ContainsFunc over s.reports", "Summary.Report no longer compares the new report with every stored one: whether two equal reports are folded depends on what arrived between them")
+		}
+	} else {
 		rinfo := hr.Pkg.TypesInfo
 		var loop *ast.RangeStmt
 		nLoops := 0
@@ -872,6 +886,14 @@ func c11ComparatorKeys(c *Ctx, R string) {
 			}
 			if fieldSel(rinfo, call.Args[0], "internal/reporter.Summary", "reports") {
 				cmpLit, _ = call.Args[1].(*ast.FuncLit)
+				// a named comparator function passed as a value: analysed as if it were the literal
+				if cmpLit == nil {
+					if fn, ok := rinfo.Uses[identOf(call.Args[1])].(*types.Func); ok {
+						if cf := p.FuncOf(fn); cf != nil && cf.Decl.Body != nil && cf.Decl.Recv == nil {
+							cmpLit = &ast.FuncLit{Type: cf.Decl.Type, Body: cf.Decl.Body}
+						}
+					}
+				}
 				c.Check(fn.Name() == "SortStableFunc" || fn.Name() == "SortFunc", R, "SortReports:sorts s.reports in place", call.Pos(), fn.Name(), "unexpected sort function")
 			}
 			return true
